@@ -188,11 +188,12 @@ CLAIMS = {
          "(C12_values_invariant), tags of a float curve are <id><i> in date order (C12_tags), 1<->2 keep names "
          "(C12_keep_names), looked-up values are order-independent bit for bit for the smooth rules "
          "(C12_lookup_value_invariant), index value = base / value, 0 before the first node, error without base "
-         "(C12_index_value), straight-line sensitivities are the true derivatives via C01 (C12_grad_linear) and vanish "
-         "for nodes outside the interval (C12_local). Log-linear / zero-rate sensitivities and all Hessians: "
-         "correspondence + C01/C02 rules (partial).",
+         "(C12_index_value); the first-order sensitivities of the straight-line, log-linear and zero-rate rules (both "
+         "branches of the latter) are the C01 jets of the rules' formulas, i.e. the true derivatives (C12_grad_linear, "
+         "C12_grad_log_linear, C12_grad_zero_rate), and vanish for nodes outside the interval (C12_local). PARTIAL: "
+         "Hessians of looked-up values are the C02 rules composed (correspondence).",
     design_ref="DESIGN.md §3 C12",
-    note=_corr + "gradient theorem stated for the straight-line rule; the other rules compose the C01-proved exp/log rules.",
+    note=_corr + "Hessian theorems not stated per rule (C02 rules composed; correspondence).",
     technique="Lean 4 proof over state-machine model of set_ad_order + differential correspondence"),
  "C09": dict(
     text="Lean 4 theorems over the model of the triangulation: over any field, whenever it returns a result every one of "
